@@ -2,15 +2,18 @@
 from .load import Program
 from .core import Analysis, compute_summaries
 from .facts import Facts
+from .frozen import Frozen
 
 
 class Crate:
     def __init__(self, facts_path):
         self.prog = Program(facts_path)
+        self.prog.frozen = Frozen(self.prog)
         compute_summaries(self.prog)
         self._an = {}
         self._fx = {}
         self.entry_facts_hook = None   # callable(crate, an) -> list of atoms
+        self._inv = None
 
     def fn_paths(self):
         return [f["path"] for f in self.prog.d["fns"]]
@@ -19,6 +22,7 @@ class Crate:
         a = self._an.get(path)
         if a is None:
             a = Analysis(self.prog, self.prog.fns[path])
+            a.crate = self
             self._an[path] = a
         return a
 
@@ -27,8 +31,17 @@ class Crate:
         if f is None:
             a = self.an(path)
             f = Facts(a)
+            from .closures import closure_entry_facts
+            f.entry_facts = list(closure_entry_facts(self, a))
             if self.entry_facts_hook:
-                f.entry_facts = list(self.entry_facts_hook(self, a))
+                f.entry_facts += list(self.entry_facts_hook(self, a))
             f.solve()
             self._fx[path] = f
         return f
+
+    @property
+    def inv(self):
+        if self._inv is None:
+            from .inv import Invariants
+            self._inv = Invariants(self)
+        return self._inv
